@@ -4,7 +4,7 @@
 (* extraction produces.  Paths are character sequences; the rules are the       *)
 (* documented ones in their documented order.                                   *)
 (* A file of a list: [path, mode, size, lstat] with mode in "regular" "dir"     *)
-(* "symlink" "irregular", size in "small" "big" (more than 16 MiB), lstat TRUE  *)
+(* "symlink" "irregular", size in "empty" "small" "big" (more than 16 MiB), lstat TRUE *)
 (* when Lstat fails.                                                            *)
 EXTENDS ModulePath
 
@@ -110,6 +110,7 @@ Entries(prefix, files, ge124) == LET v == Classify(files, ge124).valid IN [i \in
 \* ---- archives (CheckZip / Unzip) ----
 \* an entry: [name (raw), size: "ok" "big" (16 MiB + 1, honest) "lie-more" (content larger than declared) "lie-less"
 \*            "lie-zero" (declares no content but has some)
+\*            "dirmode" (an honest file entry whose mode bits say directory: still a file, the name has no trailing slash)
 \*            "over" (declares 500 MiB + 1, more than an archive may hold) "huge" (declares 2^63, negative as a signed number)]
 \* Sizes are added up over the file entries that pass the name checks; a total over the limit is an error of the
 \* archive as a whole (sizeerr), not of an entry.
